@@ -427,6 +427,12 @@ func prevGo(gos []goRecord) string {
 // of the session: the same line again (a second game from the same opening), the same line extended by
 // further moves (the game goes on), or a prefix of it (take-back); otherwise a fresh position.
 func genPositionStep(t *rapid.T, hist []uStep, maxPieces, maxPlies int) (uStep, rc.Pos) {
+	return genPositionStepAfter(t, hist, maxPieces, maxPlies, false)
+}
+
+// genPositionStepAfter: after a ucinewgame (or a rejected position command) the next game often starts with the
+// very line an earlier game started with - that case is drawn with a higher weight.
+func genPositionStepAfter(t *rapid.T, hist []uStep, maxPieces, maxPlies int, restart bool) (uStep, rc.Pos) {
 	final := func(s uStep) rc.Pos {
 		start := s.Fen
 		if start == "" {
@@ -434,6 +440,14 @@ func genPositionStep(t *rapid.T, hist []uStep, maxPieces, maxPlies int) (uStep, 
 		}
 		ps, _ := hx.Playout{Start: start, Moves: s.Moves}.Replay()
 		return ps[len(ps)-1]
+	}
+	if len(hist) > 0 && restart && rapid.Bool().Draw(t, "sameOpening") {
+		base := hist[rapid.IntRange(0, len(hist)-1).Draw(t, "opening")]
+		st := uStep{Kind: "position", Fen: base.Fen, Moves: append([]string{}, base.Moves...)}
+		if len(st.Moves) > 0 && rapid.Bool().Draw(t, "shorter") {
+			st.Moves = st.Moves[:rapid.IntRange(0, len(st.Moves)).Draw(t, "openingLen")]
+		}
+		return st, final(st)
 	}
 	if len(hist) > 0 && rapid.IntRange(0, 2).Draw(t, "related") == 0 {
 		base := hist[rapid.IntRange(0, len(hist)-1).Draw(t, "earlier")]
@@ -474,6 +488,7 @@ func genUciCase(t *rapid.T, maxSteps int) uciCase {
 	searching, mode := false, ""
 	hit := false
 	var posHist []uStep
+	afterNewGame := false
 	for i := 0; i < n; i++ {
 		var kinds []string
 		if searching {
@@ -516,9 +531,11 @@ func genUciCase(t *rapid.T, maxSteps int) uciCase {
 		case "ucinewgame":
 			c.Steps = append(c.Steps, uStep{Kind: "ucinewgame"})
 			cur = rc.MustParse(rc.StartFEN)
+			afterNewGame = true
 		case "position":
 			var st uStep
-			st, cur = genPositionStep(t, posHist, 12, 20)
+			st, cur = genPositionStepAfter(t, posHist, 12, 20, afterNewGame)
+			afterNewGame = false
 			posHist = append(posHist, st)
 			c.Steps = append(c.Steps, st)
 		case "setoption":
